@@ -7,7 +7,7 @@
    A history is any list of declarations (commodity, price, target), in any order.            *)
 From Coq Require Import ZArith List Bool Permutation.
 From Knut Require Import Model.Str Model.Dec Model.Price Model.Journal Model.Ledger Model.Pipeline.
-From Knut Require Import Spec.PriceSpec Proofs.SMapProofs Proofs.PriceProofs Proofs.RecipProofs.
+From Knut Require Import Spec.PriceSpec Spec.PriceDaySpec Proofs.SMapProofs Proofs.PriceProofs Proofs.RecipProofs Proofs.PriceDayProofs.
 Import ListNotations.
 Open Scope Z_scope.
 
@@ -113,6 +113,23 @@ Theorem C12_order_independent : forall h1 h2 ps1 ps2,
   ps1 = ps2 /\ forall v, normalize ps1 v = normalize ps2 v.
 Proof. exact order_independent. Qed.
 Print Assumptions C12_order_independent.
+
+(* "on a given day": run over the days of a journal, the ComputePrices processor gives day k the
+   normalised prices of the history of all price directives up to and including day k (none
+   before the first declaration), so everything above applies day by day ... *)
+Theorem C12_day : forall v ds s' ds',
+  process_days (compute_prices_proc v) (mkCp [] None) ds = ROk (s', ds') ->
+  length ds' = length ds /\
+  forall k d', nth_error ds' k = Some d' -> d_normalized d' = price_on v ds k.
+Proof. exact compute_prices_days. Qed.
+Print Assumptions C12_day.
+
+(* ... and it never panics (no fuel exhaustion, no division by zero): its only failure is the
+   rejection of a zero price *)
+Theorem C12_compute_prices_no_panic : forall v ds m,
+  process_days (compute_prices_proc v) (mkCp [] None) ds <> RPanic m.
+Proof. exact compute_prices_from_empty_no_panic. Qed.
+Print Assumptions C12_compute_prices_no_panic.
 
 (* The executable statement that the check evaluates on the Go output holds of every price the
    model returns, for every commodity (priced or not). *)
